@@ -377,7 +377,7 @@ func (e *Engine) cevalBinary(n *CBinary, env *Env) Value {
 	switch n.Op {
 	case "+":
 		if a.S == SStr {
-			return Sc{app("gs.cat", a.T, b.T), SStr}
+			return Sc{catTerm(a.T, b.T), SStr}
 		}
 		return Sc{app("+", a.T, b.T), a.S}
 	case "-":
